@@ -140,7 +140,7 @@ Section ConcreteFaults.
   Proof using Ha Hb Hd.
     intros B0 Hl Hs Hwf.
     exact (try_backup_fault (the_api TBase pa) (the_api TBackup pb) (Vp pa) (Vp pb) clean clean
-             (acc_p pa) (acc_p pb) (rh_p TBase pa) (rh_p TBackup pb) (wh_p TBase pa) (wh_p TBackup pb)
+             (acc_p pa) (acc_p pb) (rh_p TBase pa) (rh_p TBackup pb) (wh_p TBase pa) (wh_p TBackup pb) nohid nohid
              B0 TBase TBackup Lb Lk Fb Fk Hl Hs Hwf).
   Qed.
 
@@ -157,7 +157,7 @@ Section ConcreteFaults.
   Proof using Ha Hb Hd.
     intros B0 Hl Hs Hwf.
     exact (step_fault (the_api TBase pa) (the_api TBackup pb) (Vp pa) (Vp pb) clean clean
-             (acc_p pa) (acc_p pb) (rh_p TBase pa) (rh_p TBackup pb) (wh_p TBase pa) (wh_p TBackup pb)
+             (acc_p pa) (acc_p pb) (rh_p TBase pa) (rh_p TBackup pb) (wh_p TBase pa) (wh_p TBackup pb) nohid nohid
              B0 TBase TBackup Lb Lb2 Lk Fb Fk Hl Hs Hwf).
   Qed.
 
@@ -172,8 +172,8 @@ Section ConcreteFaults.
   Proof using Ha Hb Hd.
     intros B0 Hl Hs Hwf.
     exact (rollback_fault (the_api TBase pa) (the_api TBackup pb) (Vp pa) (Vp pb) clean clean
-             (acc_p pa) (acc_p pb) (rh_p TBase pa) (rh_p TBackup pb) (wh_p TBase pa) (wh_p TBackup pb)
-             B0 TBase TBackup Lb Lk Fb Fk Hl Hs Hwf).
+             (acc_p pa) (acc_p pb) (rh_p TBase pa) (rh_p TBackup pb) (wh_p TBase pa) (wh_p TBackup pb) nohid nohid
+             B0 TBase TBackup Lb Lk Fb Fk Hl Hs Hwf (loc_ok_nohid B0)).
   Qed.
 
   (** Rollback under any fault plan: nil only if restored (C09) *)
@@ -186,8 +186,8 @@ Section ConcreteFaults.
   Proof using Ha Hb Hd.
     intros B0 Hl Hs Hwf.
     exact (rollback_nil_restored (the_api TBase pa) (the_api TBackup pb) (Vp pa) (Vp pb) clean clean
-             (acc_p pa) (acc_p pb) (rh_p TBase pa) (rh_p TBackup pb) (wh_p TBase pa) (wh_p TBackup pb)
-             B0 TBase TBackup Lb Lk Fb Fk Hl Hs Hwf).
+             (acc_p pa) (acc_p pb) (rh_p TBase pa) (rh_p TBackup pb) (wh_p TBase pa) (wh_p TBackup pb) nohid nohid
+             B0 TBase TBackup Lb Lk Fb Fk Hl Hs Hwf (loc_ok_nohid B0)).
   Qed.
 
   (** a history of covered operations under a single fault, then Rollback (C08 / C01 / C02 / C09) *)
@@ -204,7 +204,7 @@ Section ConcreteFaults.
   Proof using Ha Hb Hd.
     intros B0 Hs.
     exact (run_fault (the_api TBase pa) (the_api TBackup pb) (Vp pa) (Vp pb) clean clean
-             (acc_p pa) (acc_p pb) (rh_p TBase pa) (rh_p TBackup pb) (wh_p TBase pa) (wh_p TBackup pb)
+             (acc_p pa) (acc_p pb) (rh_p TBase pa) (rh_p TBackup pb) (wh_p TBase pa) (wh_p TBackup pb) nohid nohid
              B0 TBase TBackup Lb Lb2 Lk Fb Fk Hs).
   Qed.
 End ConcreteFaults.
